@@ -472,6 +472,12 @@ func runC20(c *Case, out func(string)) {
 			s.tampered = true
 			s.nTamper++
 			s.printDir()
+		case "writetmp":
+			// a left-over MANIFEST.tmp of an interrupted earlier save (any content, any length)
+			os.MkdirAll(s.db, 0755)
+			os.WriteFile(s.manifestPath()+".tmp", s.real(tok(l[1])), 0644)
+			s.nTamper++
+			s.printDir()
 		case "trunc", "flip":
 			b, err := os.ReadFile(s.manifestPath())
 			if err == nil {
@@ -1113,6 +1119,21 @@ func c20Handmade(r *rand.Rand) string {
 	return base(e)
 }
 
+// content of a MANIFEST.tmp left behind by an interrupted save: shorter than, as long as, or
+// longer than the manifest that will be written over it
+func c20StaleTmp(r *rand.Rand) string {
+	switch r.Intn(4) {
+	case 0:
+		return c20Handmade(r)
+	case 1:
+		return strings.Repeat("x", 1+r.Intn(300))
+	case 2:
+		return c20Handmade(r) + strings.Repeat(" ", 400+r.Intn(800)) + `"tail":1}`
+	default:
+		return strings.Repeat("{\"stale\":true}\n", 60+r.Intn(60))
+	}
+}
+
 func genC20(w *bufio.Writer, seed int64, n int, tier string) {
 	r := rand.New(rand.NewSource(seed))
 	g := &c20Gen{w: w, r: r}
@@ -1135,6 +1156,9 @@ func genC20(w *bufio.Writer, seed int64, n int, tier string) {
 			}
 			for k := 1 + r.Intn(3); k > 0; k-- {
 				g.mutate(false)
+			}
+			if r.Intn(4) == 0 {
+				g.line("writetmp %s", c20Tok(c20StaleTmp(r)))
 			}
 			g.line("validate")
 			g.line("save")
@@ -1207,6 +1231,9 @@ func genC20(w *bufio.Writer, seed int64, n int, tier string) {
 				g.line("int memtable_size %d", []int64{4096, 65536, 1 << 20}[r.Intn(3)])
 				g.line("ratio %s", []string{"2", "1.5", "10"}[r.Intn(3)])
 				g.line("save")
+			}
+			if r.Intn(3) == 0 {
+				g.line("writetmp %s", c20Tok(c20StaleTmp(r)))
 			}
 			g.line("open")
 			nk := 1 + r.Intn(3)
